@@ -25,6 +25,12 @@ func getParser(br *bufio.Reader, file string) parser.Parser {
 
 func setDefineInfos(p *parser.Parser) {
 	for _, article := range eval.DefineInfoArticles {
+		// hints are for the file being analysed: a method defined in a preloaded file has
+		// no line in it
+		if article.P.FileName != p.FileName {
+			continue
+		}
+
 		ctx := article.Ctx
 
 		methodT := article.MethodT
